@@ -37,7 +37,8 @@ def handle (j : Json) : Json :=
     (if exclSrvEnum33 d r then ["SrvEnum33"] else []) ++
     (if exclGorillaShadow40 kind d r then ["GorillaShadow40"] else []) ++
     (if exclLegacyVarThenLiteral kind d then ["LegacyVarThenLiteral"] else []) ++
-    (if exclLegacyURLForm kind d r then ["LegacyURLForm"] else [])
+    (if exclLegacyURLForm kind d r then ["LegacyURLForm"] else []) ++
+    (if exclLegacyFirstServer kind d r then ["LegacyFirstServer"] else [])
   let pre := if kind = .legacy then "l." else "g."
   let nvars := match model with | .route t _ _ => (svarNames (sparseS t)).length | _ => 0
   let branches :=
